@@ -153,8 +153,13 @@ partial def parseCls (j : Json) : Except String Cls := do
   | .error _ => pure (.mk h tests subs)
   | .ok .null => pure (.mk h tests subs)
   | .ok m => do
+    -- members listed in a base's dict (kind `member`) are INHERITED test methods: they live there, not in the class's own dict
+    let inherited : List String := (← (← m.getArr?).toList.mapM (fun d => do
+      (← d.getArr?).toList.filterMapM (fun e => do
+        if (← getStr e "kind") == "member" then pure (some (← getStr e "name")) else pure none))).flatten
     let own : LccModel.ClassAttrs.ClassDict :=
-      tests.map (fun t => (t.attr, .member (.test t))) ++ subs.map (fun c => (c.head.attr, .member (.suite c)))
+      (tests.filter (fun t => !inherited.contains t.attr)).map (fun t => (t.attr, .member (.test t))) ++
+        subs.map (fun c => (c.head.attr, .member (.suite c)))
     let target (a : String) : LccModel.ClassAttrs.Getter :=
       match tests.find? (fun t => t.attr == a) with
       | some t => .returns (.test t)
@@ -165,6 +170,9 @@ partial def parseCls (j : Json) : Except String Cls := do
       let n ← getStr e "name"
       match (← getStr e "kind") with
       | "plain" => pure (n, .plain)
+      | "member" => match tests.find? (fun t => t.attr == n) with
+        | some t => pure (n, .member (.test t))
+        | none => throw s!"model: inherited member {n} is not among the tests"
       | _ => match (← getStr e "getter") with
         | "raises" => pure (n, .property .raises)
         | "returns" => pure (n, .property (target (← getStr e "target")))
@@ -179,7 +187,8 @@ partial def parseCls (j : Json) : Except String Cls := do
       -- the scan finds exactly the members that are not `__`-named (those are dropped by `strip…`, finding D18), each once;
       -- the class travels on as written (`stripCls` is applied by the entry points)
       let want := (tests.filter (fun t => !dunder t.attr)).map (·.attr) ++ (subs.filter (fun c => !dunder c.head.attr)).map (·.head.attr)
-      if ms.map (·.attr) == want then pure (.mk h tests subs)
+      let srt (l : List String) : List String := (l.toArray.qsort (· < ·)).toList
+      if srt (ms.map (·.attr)) == srt want then pure (.mk h tests subs)
       else throw s!"model: the attribute scan yields {ms.map (·.attr)} instead of the members {want}"
 
 def parseInfo (j : Json) : Except String (Option SuiteInfo) :=
